@@ -1,6 +1,6 @@
 CONSTANTS
   Sessions = {"s1", "s2"}
-  Ghosts = {"null", "unknown", "foreign", "old"}
+  Ghosts = {"null", "unknown", "foreign", "alias", "old"}
   NodeSet = {"n"}
   Values = {1, 2}
   SubIds = {}
